@@ -22,7 +22,7 @@ VARIABLES case, out, phase
 vars == <<case, out, phase>>
 
 WellFormed(q) ==
-    CASE q.kind = "hard"   -> q.rl >= 1 /\ q.rh >= 1 /\ q.rh <= q.rl /\ \A i \in 1..3 : q.n[i] >= 2
+    CASE q.kind = "hard"   -> q.rl >= 0 /\ q.rh >= 0 /\ q.rh <= q.rl /\ \A i \in 1..3 : q.n[i] >= 2
       [] q.kind = "soft"   -> q.r >= 1 /\ q.f >= 0 /\ q.f <= 16 /\ \A i \in 1..3 : q.n[i] >= 2
       [] q.kind = "pixels" -> q.edge >= 1 /\ q.px100 >= 1 /\ q.res100 >= 1
 
